@@ -1,7 +1,9 @@
 """C14 - concurrent use is safe: unique transaction ids, no cross-talk, no races."""
 import os
 
+import ofcorpus
 import pipeline
+import swcorpus
 import vlib
 from vlib import Infra
 
@@ -47,12 +49,42 @@ def run(ctx):
                      ids_drawn=sum(s["goroutines"] * s["per"] for s in scen),
                      fetch_and_add_shape=dict(increasing=all(i["increasing"] for i in info), gapfree=all(i["gapfree"] for i in info)),
                      distinct_nontrivial=len(scen))
+    # cross-talk: the construction corpus and the parse corpus processed sequentially and by G goroutines concurrently
+    corpus = os.path.join(ctx.scratch, "conc-corpus.ndjson")
+    rows = []
+    for fam in (["A1", "M1", "S", "W", "L"] if q else ["A1", "A2", "M1", "M2", "I", "G", "S", "W", "L", "N", "O", "P"]):
+        tags, stride = ofcorpus.FAMILIES[fam][0]
+        p, n = pipeline.gen_tlc(ctx, "OFGen", ofcorpus.cfg(fam, tags, stride if q else max(1, stride // 3), 0), "OFGen[%s]" % fam, "x" + fam,
+                                expect_min=1, workers=8, xmx="8g")
+        rows += vlib.read_ndjson(p)
+    for fam in swcorpus.FAMS:
+        p, n = swcorpus.gen(ctx, fam, "{7}")
+        rows += [dict(id=r["id"], frame=r["frame"]) for r in vlib.read_ndjson(p)]
+    for r in rows:
+        r.pop("trees", None)
+    vlib.write_ndjson(corpus, rows)
+    cgs = [4, 16] if q else [2, 4, 16, 64]
+    cscen = [dict(id="conc-g%d" % g, k="conc", corpus=corpus, goroutines=g, rounds=1 if q else 2, maxprocs=0, expect=len(rows) * (1 if q else 2))
+             for g in cgs]
+    cp = os.path.join(ctx.scratch, "scen-conc.ndjson")
+    vlib.write_ndjson(cp, cscen)
+    env2, rdir2 = vlib.race_env(ctx, "c14conc")
+    ctr = pipeline.record(ctx, "conc", cp, race=True, env=env2, timeout=3000)
+    nrace2, first2 = vlib.race_reports(rdir2)
+    vlib.patch_obs(ctr, lambda r: r["obs"].__setitem__("races", nrace2))
+    if first2:
+        ctx.extra["race_report_conc"] = first2
+    crecs = vlib.judge(ctx, JUDGE, ctr, workers=1, label="XidTrace:conc")
+    ctx.extra.update(conc_scenarios=len(rows), conc_goroutines=cgs, distinct_nontrivial=len(scen) + len(rows))
+    for r in crecs:
+        r["_conc"] = True
+    recs = recs + crecs
     viol = []
     for r in recs:
         if "reject" in r:
-            line = vlib.nth_line(tr, r["line"] if "line" in r else r["reject"])
+            line = vlib.nth_line(ctr if r.get("_conc") else tr, r["line"] if "line" in r else r["reject"])
             viol.append(vlib.save_replay(ctx.pid, "%s-%s" % (ctx.tier, r["id"]), dict(
-                property=ctx.pid, sub="xid", judge=JUDGE, constants="", race=True,
+                property=ctx.pid, sub="conc" if r.get("_conc") else "xid", judge=JUDGE, constants="", race=True,
                 scenario={k: v for k, v in line.items() if k != "obs"},
                 judge_record={k: v for k, v in r.items() if not k.startswith("_")}, race_report=first)))
     ctx.sample(dict(scenario=scen[0], note="ids elided"))
@@ -62,7 +94,10 @@ def run(ctx):
         "hold; the split read/write variant is refuted, so the invariant is not vacuous). On the code, %s goroutines (GOMAXPROCS %s) "
         "draw ids through every constructor that embeds a generated header (14 entry points) under the race detector; the recorded "
         "per-goroutine id sequences are judged by TLC against the abstract action 'Draw returns an id never returned before' "
-        "(pairwise distinct)." % (ctx.extra["model"]["draws"], gs, mps),
+        "(pairwise distinct). Cross-talk: %d independent scenarios (construction histories of the OFGen.tla corpus, built, encoded, "
+        "parsed back and projected; frames of the OFSwGen.tla corpus parsed, projected and re-encoded) are processed once sequentially and "
+        "then concurrently by %s goroutines; TLC requires every concurrent observation to equal the sequential one and no race report."
+        % (ctx.extra["model"]["draws"], gs, mps, ctx.extra["conc_scenarios"], ctx.extra["conc_goroutines"]),
         viol, [],
         ["interleavings of the real goroutines are stress-sampled, not enumerated; race freedom is the Go race detector's verdict on the executions performed",
          "ids stay far below the 32-bit wrap in every run"],
